@@ -142,6 +142,8 @@ func decideKeep(dm *model.DecisionMaker) (res *model.DecisionMakerChoice, out Ou
 			res, out = nil, Outcome{Err: fmt.Sprint(e)}
 		}
 	}()
+	id := sutEnter()
+	defer sutLeave(id)
 	res = dm.MakeDecision(funcs, biasListeners, &biases, utils.RandomBasedSeedValueGenerator)
 	b, err := json.Marshal(res)
 	if err != nil {
@@ -187,6 +189,7 @@ func judgeC09(c C09Case) *Fail {
 			}
 		} else {
 			news = append(news, e)
+			corpusAdd(body, e.out) // for the fresh-process phase: another process, another history, the same outcome
 		}
 		hist = append(hist, e)
 		// (b) nothing an earlier call returned (or was handed) has changed
@@ -256,9 +259,19 @@ func genC09(t *rapid.T) C09Case {
 		gr := genRequest(t, c09Opts(g))
 		if g.Chance(1, 8) {
 			gr = mutateConstraint(t, gr)
+			c.Ops = append(c.Ops, C09Op{Req: string(mustJSON(gr.Req)), Again: -1})
+			news++
+			continue
 		}
 		c.Ops = append(c.Ops, C09Op{Req: string(mustJSON(gr.Req)), Again: -1})
 		news++
+		if g.Chance(1, 3) {
+			// a REJECTED relative of the request (one documented constraint broken on it) in between, then the request
+			// again: error paths must not leave anything behind either
+			c.Ops = append(c.Ops, C09Op{Req: string(mustJSON(mutateConstraint(t, gr).Req)), Again: -1})
+			news++
+			c.Ops = append(c.Ops, C09Op{Again: news - 2})
+		}
 	}
 	return c
 }
@@ -374,7 +387,14 @@ func genC09Rep(t *rapid.T) ReqCase {
 func init() {
 	register("C09", "C09hist", 0.4, genC09, judgeC09)
 	register("C09", "C09rep", 1, genC09Rep, judgeC09Rep)
+	// fresh-process phase (replay entry): a request decided by another process after ITS history gives the same outcome here
+	register("C09", "C09fresh", 0.01, func(t *rapid.T) C02FreshCase {
+		b := mustJSON(genRequest(t, c09Opts(G{t})).Req)
+		return C02FreshCase{Req: string(b), Expected: decide(b)}
+	}, judgeC02Fresh)
 }
+
+func TestC09Corpus(t *testing.T) { runCorpusPhase(t, "C09", "C09fresh") }
 
 func TestC09Hist(t *testing.T) { runRegistered(t, "C09hist") }
 func TestC09Rep(t *testing.T)  { runRegistered(t, "C09rep") }
